@@ -126,6 +126,40 @@ func main() {
 			cases = append(cases, mk("Enc", 1, n), mk("Mac", 1, n), mk("Mac", 2, n))
 		}
 	}
+	// structured message contents: all-zero and all-one messages, zero blocks of 8 and 16 octets at aligned and unaligned positions inside
+	// otherwise random messages (an evaluation that skips "empty" blocks, a keystream or MAC shortcut for zero input), sparse messages
+	for _, n := range []int{8, 16, 24, 33, 40, 64} {
+		for _, alg := range []uint8{1, 2} {
+			for _, kind := range []string{"Enc", "Mac"} {
+				for shape := 0; shape < 5; shape++ {
+					c := mk(kind, alg, n)
+					switch shape {
+					case 0:
+						for i := range c.msg {
+							c.msg[i] = 0
+						}
+					case 1:
+						for i := range c.msg {
+							c.msg[i] = 0xff
+						}
+					case 2: // an aligned zero block in the middle (the MAC input is COUNT|BEARER|DIR = 8 octets, then the message)
+						for i := 8; i < 16 && i < n; i++ {
+							c.msg[i] = 0
+						}
+					case 3: // the same one octet later (not aligned)
+						for i := 9; i < 25 && i < n; i++ {
+							c.msg[i] = 0
+						}
+					case 4: // sparse: a single non-zero octet at the front and at the end
+						for i := 1; i < n-1; i++ {
+							c.msg[i] = 0
+						}
+					}
+					cases = append(cases, c)
+				}
+			}
+		}
+	}
 	// repeat a slice of the cases later in a different order: results must not depend on call order
 	nrep := len(cases) / 8
 	for i := 0; i < nrep; i++ {
